@@ -831,4 +831,131 @@ theorem step_core (cfg : Cfg) (base : Nat) (s s' : St) (t : Tid) (h : RInv cfg b
         have hc := core_frame cfg _ _ _ _ _ hst (role_any_noData i _ (hK i th hth).role)
         exact ⟨nofun, fun _ => ⟨congrArg Core.cseq hc, Nat.le_of_eq (congrArg Core.pseq hc).symm⟩⟩
 
+/-! ### results handed to the consumer -/
+
+/-- what a result handed to the consumer must be: the stream at its offset, below the producer's
+commit position (`Spec.Ring.chunkOk`) -/
+def resOK (cfg : Cfg) (pseq : Nat) (r : Res) : Prop := chunkOk cfg.src r.off pseq r.data
+
+theorem resOK_nil (cfg : Cfg) (pseq : Nat) (r : Res) (hd : r.data = []) (ho : r.off ≤ pseq) : resOK cfg pseq r := by
+  unfold resOK chunkOk
+  rw [hd]; exact ⟨by simpa using ho, by simp [segment_zero]⟩
+
+theorem startCall_res (cfg : Cfg) (base : Nat) (c : Core) (th : Th) (call : Call) (hg : Glob cfg base c)
+    (hi : CInv cfg c th) (r : Res) (hr : (startCall cfg th call).res = some r) (h0 : th.res = none) :
+    resOK cfg c.pseq r := by
+  obtain ⟨hpc, hv, hpd⟩ := hi
+  cases call <;> simp only [startCall, enterWfs, wfsErr, Th.goto, Th.ret] at hr
+  case use =>
+    split at hr
+    · simp only [h0] at hr; cases hr
+    · rename_i cpos bytes hvw
+      simp only [Option.some.injEq] at hr
+      subst hr
+      rw [hvw] at hv
+      obtain ⟨a, b, d⟩ := hv
+      exact ⟨b, d⟩
+    · simp only [Option.some.injEq] at hr
+      subst hr
+      exact resOK_nil cfg _ _ rfl (Nat.zero_le _)
+  all_goals (repeat' split at hr)
+  all_goals (first
+    | (simp only [Option.some.injEq] at hr; subst hr; exact resOK_nil cfg _ _ rfl (Nat.zero_le _))
+    | (simp only [h0] at hr; cases hr; done))
+
+/-- **every result the consumer is handed is the stream at its offset** -/
+theorem cons_res (cfg : Cfg) (base : Nat) (sh sh' : Sh) (th th' : Th)
+    (hg : Glob cfg base sh.core) (hi : CInv cfg sh.core th) (hok : ThOK .c th)
+    (hs : tstep cfg sh .c th = some (sh', th')) (r : Res) (hr : th'.res = some r) :
+    resOK cfg sh'.pseq r := by
+  have hcr := tstep_crash _ _ _ _ _ hs
+  obtain ⟨hp, hc, hrl⟩ := hok
+  obtain ⟨hpc, hv, hpd⟩ := hi
+  have hcp : sh.cseq ≤ sh.pseq := hg.cp
+  obtain ⟨pc, prog, cur, slice, filled, view, pending, res⟩ := th
+  simp only at hp hc hrl hpc hv hpd
+  simp only [Sh.core] at hpc hv hpd
+  cases pc
+  case idle =>
+    simp only [tstep, Bool.false_eq_true, ↓reduceIte, hcr] at hs
+    cases prog with
+    | nil => simp at hs
+    | cons call rest =>
+      simp only [Option.some.injEq, Prod.mk.injEq] at hs
+      obtain ⟨rfl, rfl⟩ := hs
+      exact startCall_res cfg base sh.core ⟨Pc.idle, rest, some call, slice, filled, view, pending, none⟩ call hg
+        ⟨trivial, hv, hpd⟩ r hr rfl
+  case l21 cpos =>
+    simp only [tstep, Bool.false_eq_true, ↓reduceIte, hcr] at hs
+    repeat' split at hs
+    all_goals (
+      simp only [Option.some.injEq, Prod.mk.injEq] at hs
+      obtain ⟨rfl, rfl⟩ := hs
+      simp only [Th.goto, Th.ret, Option.some.injEq] at hr
+      first
+      | (subst hr; exact resOK_nil cfg _ _ rfl (Nat.zero_le _))
+      | (cases hr; done))
+  case r62 n cpos =>
+    simp only [tstep, Bool.false_eq_true, ↓reduceIte, hcr] at hs
+    repeat' split at hs
+    all_goals (
+      simp only [Option.some.injEq, Prod.mk.injEq] at hs
+      obtain ⟨rfl, rfl⟩ := hs
+      simp only [Th.goto] at hr
+      cases hr)
+  case r67 b cpos acc =>
+    simp only [pcC] at hpc
+    tstep_norm
+    obtain ⟨rfl, rfl⟩ := hs
+    simp only [Th.ret, Option.some.injEq] at hr
+    subst hr
+    refine ⟨?_, ?_⟩
+    · show cpos + acc.reverse.length ≤ (sh.unlock .pL).pseq
+      rw [List.length_reverse, show (sh.unlock .pL).pseq = sh.pseq from congrArg Core.pseq (core_unlock sh .pL)]; exact hpc.1
+    · show acc.reverse = segment cfg.src cpos acc.reverse.length
+      rw [List.length_reverse]; exact hpc.2
+  case p88 w n cpos ppos =>
+    simp only [pcC] at hpc
+    tstep_norm
+    rcases hs with ⟨h1, rfl, rfl⟩ | ⟨h1, rfl, rfl⟩
+    · simp only [Th.goto] at hr; cases hr
+    · simp only [Th.ret, Option.some.injEq] at hr
+      subst hr
+      refine resOK_nil cfg _ _ rfl ?_
+      show cpos ≤ (sh.unlock .cL).pseq
+      rw [show (sh.unlock .cL).pseq = sh.pseq from congrArg Core.pseq (core_unlock sh .cL)]; omega
+  case p89c w cpos m err j acc =>
+    simp only [pcC] at hpc
+    tstep_norm
+    rcases hs with ⟨h1, rfl, rfl⟩ | ⟨h1, rfl, rfl⟩
+    · simp only [Th.goto] at hr; cases hr
+    · simp only [Th.ret, Option.some.injEq] at hr
+      subst hr
+      refine resOK_nil cfg _ _ rfl ?_
+      show cpos ≤ sh.pseq
+      omega
+  case u0 cpos m j acc =>
+    simp only [pcC] at hpc
+    obtain ⟨e1, e2, e3, e4⟩ := hpc
+    tstep_norm
+    rcases hs with ⟨h1, rfl, rfl⟩ | ⟨h1, rfl, rfl⟩
+    · simp only [Th.goto] at hr; cases hr
+    · have hj : j = m := by omega
+      subst hj
+      simp only [Th.ret, Option.some.injEq] at hr
+      subst hr
+      refine ⟨?_, ?_⟩
+      · show cpos + acc.reverse.length ≤ sh.pseq
+        rw [e4, segment_length]; exact e2
+      · show acc.reverse = segment cfg.src cpos acc.reverse.length
+        rw [e4, segment_length]
+  all_goals (first | (simp [pcRole, roleOK] at hrl; done) | skip)
+  all_goals tstep_norm
+  all_goals tstep_elim
+  all_goals (simp only [Th.goto, Th.ret, wfsErr, Option.some.injEq] at hr)
+  all_goals (first
+    | (subst hr; exact resOK_nil cfg _ _ rfl (Nat.zero_le _))
+    | (cases hr; done))
+
+
 end Mqtt.Proofs.Ring
